@@ -53,7 +53,16 @@ Step ==
             /\ UNCHANGED scen
        [] e.ev = "Diverged" -> PrintT(<<"DIVERGED", l, e.a, scen>>) /\ UNCHANGED scen
        [] e.ev = "End" -> Report(l, EndPreds(e), scen) /\ UNCHANGED scen
-       [] e.ev = "Stress" -> Report(l, {e.viol[i] : i \in 1..Len(e.viol)}, scen) /\ UNCHANGED scen
+       [] e.ev = "UDPStep" ->
+            \* real Abaco source over localhost UDP: failed start for lack of data, start once data flow, stop, restart
+            /\ LET quiet == e.census.core = 0 /\ e.census.udp = 0 /\ e.census.reader = 0 IN
+               Report(l, Iff(~e.returned, "C10_call_returns")
+                         \cup Iff(e.step = "start-nodata" /\ e.returned /\ (e.err = "" \/ e.state # "Inactive"), "C10_failed_start_clean")
+                         \cup Iff(e.step = "start-data" /\ e.returned /\ (e.err # "" \/ e.state # "Active"), "C10_failed_start_clean")
+                         \cup Iff(e.step \in {"stop", "stop2"} /\ e.returned /\ e.err # "", "C10_stop_returns")
+                         \cup Iff(e.step \in {"after-stop", "end"} /\ (e.state # "Inactive" \/ ~quiet), "C10_workers_exit")
+                         \cup Iff(e.step = "restart" /\ e.returned /\ (e.err # "" \/ e.state # "Active"), "C10_restartable"), e.scen)
+            /\ UNCHANGED scen
 
 Next == Step
 Spec == Init /\ [][Next]_vars
